@@ -657,6 +657,96 @@ def oracle(ctx, volume=1):
                             lambda gen: dg.generate_dataset_from_prob_dists([x for x, _ in jobs], [k for _, k in jobs], [gen] * 3),
                             jobs, lambda: SpliceGen(seed, allv), rep)
     experiment_boundary(ctx, seeds)
+    # (b3) argument buffers re-used between consecutive calls (contents changed in place): the result may depend on the
+    #      current contents only
+    for t, (kind, p) in enumerate(vecs):
+        if len(p) < 2 or t % 2:
+            continue
+        seed = seeds[t % len(seeds)]
+        q2 = np.roll(p, 1)
+        if np.array_equal(q2, p):
+            continue
+        rep = {"kind": "reused-buffer", "probs": p.tolist(), "then": q2.tolist(), "seed": seed}
+        ctx.case(("o-reused-buffer", tuple(p), seed))
+        try:
+            for entry, run, ref in (
+                ("generate_data_from_prob_dist", lambda b: [int(x) for x in dg.generate_data_from_prob_dist(b, 120, seed)],
+                 lambda v: [int(x) for x in dg.generate_data_from_prob_dist(np.array(v), 120, seed)]),
+                ("_random_number_to_data", lambda b: [int(dg._random_number_to_data(b, np.float64(u))) for u in (0.0, 0.3, 0.77, 0.999)],
+                 lambda v: [int(x) for x in ref_invert(np.array(v), [0.0, 0.3, 0.77, 0.999])]),
+                ("generate_dataset_from_prob_dists", lambda b: canon(dg.generate_dataset_from_prob_dists([b, b], [40, 40], [seed, seed + 1])),
+                 lambda v: canon(dg.generate_dataset_from_prob_dists([np.array(v), np.array(v)], [40, 40], [seed, seed + 1]))),
+                ("generate_empi_dist_sequence_from_prob_dist", lambda b: canon(dg.generate_empi_dist_sequence_from_prob_dist(b, [50, 500], seed)),
+                 lambda v: canon(dg.generate_empi_dist_sequence_from_prob_dist(np.array(v), [50, 500], seed))),
+            ):
+                buf = np.array(p)           # one work buffer, re-used
+                first = run(buf)
+                buf[:] = q2                 # contents replaced in place
+                second = run(buf)
+                want1, want2 = ref(p.tolist()), ref(q2.tolist())   # fresh arrays
+                if first != want1 or second != want2:
+                    ctx.violate(f"C14/{entry}/reused-buffer/depends-on-earlier-call",
+                                f"second call on the same array object (contents now {q2.tolist()}) differs from a call on a fresh array", rep)
+                elif entry == "generate_data_from_prob_dist":
+                    check_valid(ctx, "generate_data_from_prob_dist/reused-buffer", q2, second, rep)
+        except Exception as ex:  # noqa
+            ctx.violate("C14/reused-buffer/raises", f"{type(ex).__name__}: {ex}", rep)
+    # (b4) list-valued seeds of generate_dataset_from_prob_dists: repeated ints, shared generator objects, None - entry i is
+    #      generate_data_from_prob_dist(prob_dists[i], data_nums[i], seeds[i]) evaluated in order
+    r = ctx.rng
+    dy = [v for k, v in vecs if k.startswith("dyadic")]
+    for t in range(12 * volume):
+        k = r.randint(2, 5)
+        ps = [dy[r.randrange(len(dy))] for _ in range(k)]
+        if t % 3 == 0:
+            ps = [ps[0]] * k
+        nums = [r.randint(0, 40) for _ in range(k)] if t % 2 else [25] * k
+        s1, s2 = r.randrange(2 ** 32), r.randrange(2 ** 32)
+        patterns = [[s1] * k, [s1, s2] * k, [s1, None, s1, None, s2], ["g1", s1, "g1", "g2", "g1"], ["g1", "g1", "g1", "g1", "g1"], [0, 0, 1, 0, 1]]
+        pat = patterns[t % len(patterns)][:k]
+
+        def mkargs():
+            gens = {"g1": MT(s1), "g2": MT(s2)}
+            return [gens[x] if isinstance(x, str) else x for x in pat]
+        rep = {"kind": "dataset-seeds", "probs": [x.tolist() for x in ps], "nums": nums, "seeds": [str(x) for x in pat], "s": [s1, s2]}
+        ctx.case(("o-dataset-seeds", t, tuple(nums), tuple(str(x) for x in pat)))
+        try:
+            perturb(s2 % 1000, 7)
+            got = [[int(x) for x in d] for d in dg.generate_dataset_from_prob_dists(ps, nums, mkargs())]
+            perturb(s2 % 1000, 7)
+            want = [ref_data(pp, n, np.random if a is None else (MT(a) if isinstance(a, int) else a)) for pp, n, a in zip(ps, nums, mkargs())]
+        except Exception as ex:  # noqa
+            ctx.violate("C14/generate_dataset_from_prob_dists/seed-list/raises", f"{type(ex).__name__}: {ex}", rep); continue
+        if got != want:
+            bad = next(i for i in range(k) if got[i] != want[i])
+            ctx.violate("C14/generate_dataset_from_prob_dists/seed-list/entry-not-its-own-seed",
+                        f"entry {bad} (seed {pat[bad]!r}) is not generate_data_from_prob_dist(prob_dists[{bad}], {nums[bad]}, seeds[{bad}]); seeds {pat}", rep)
+    # (b5) MultinomialDistribution.execute_random_sampling: one object sampled repeatedly with different num / size / streams
+    from quara.objects.multinomial_distribution import MultinomialDistribution
+    for t, p in enumerate(dy[:10]):
+        if len(p) < 2:
+            continue
+        md = MultinomialDistribution(np.array(p), shape=(len(p),))
+        pm = np.array(md.ps)
+        gen, twin = MT(5 + t), MT(5 + t)
+        calls = [(100, 2, 11), (1000, 1, 11), (10, 3, gen), (500, 2, gen), (100, 2, 11), (7, 1, None), (70, 2, None)]
+        rep = {"kind": "execute_random_sampling", "probs": p.tolist(), "calls": [(a, b, str(c)) for a, b, c in calls]}
+        ctx.case(("o-exec-sampling", tuple(p)))
+        perturb(99 + t, 3)
+        try:
+            got = [canon(md.execute_random_sampling(num, size, sg)) for num, size, sg in calls]
+        except Exception as ex:  # noqa
+            ctx.violate("C14/MultinomialDistribution.execute_random_sampling/raises", f"{type(ex).__name__}: {ex}", rep); continue
+        perturb(99 + t, 3)
+        want = [canon(list(multinomial.rvs(num, pm, size=size, random_state=(np.random if sg is None else (MT(sg) if isinstance(sg, int) else twin)))))
+                for num, size, sg in calls]
+        for (num, size, sg), a, b in zip(calls, got, want):
+            if len(a) != size or any(sum(row) != num or min(row) < 0 or any(c > 0 and pm[i] <= 0 for i, c in enumerate(row)) for row in a):
+                ctx.violate("C14/MultinomialDistribution.execute_random_sampling/not-counts-of-num",
+                            f"call (num={num}, size={size}) on a re-used object returns {a}", rep); break
+            if a != b:
+                ctx.violate("C14/MultinomialDistribution.execute_random_sampling/stream-discipline",
+                            f"call (num={num}, size={size}, {sg}) differs from multinomial.rvs on the prescribed stream", rep); break
     # (c) calc_empi_dist_sequence = counts of the requested prefix / n; cumulative consistency; validation
     for t in range((150 if ctx.quick else 1500) * volume):
         m = int(g.integers(1, 9))
